@@ -265,3 +265,25 @@ Definition C05b (m : mir) : bool :=
 
 (* per-entry diagnosis helpers: first offending entry key, for replay files *)
 Definition first_bad {A} (f : A -> bool) (l : list A) : option A := find (fun x => negb (f x)) l.
+
+(* C01 without the argument-scoping clause (to separate the known scoping finding) *)
+Definition entry_closedb_noscope (m : mir) (t : list mentry) (e : mentry) : bool :=
+  Z.eqb (e_key e) (e_id e)
+  && Nat.eqb (count_key (e_key e) t) 1
+  && forallb (fun o => Nat.eqb (count_key o t) 1) (operands (e_op e))
+  && match fn_ref (e_op e) with
+     | Some f => Nat.eqb (count_fun f (m_functions m)) 1
+     | None => true
+     end
+  && match e_op e with
+     | MInputRef n => Nat.eqb (count_str n (map i_name (m_inputs m))) 1
+     | MLiteralRef n => Nat.eqb (count_str n (map l_name (m_literals m))) 1
+     | MEmpty => false
+     | _ => true
+     end.
+Definition C01b_noscope (m : mir) : bool :=
+  forallb (entry_closedb_noscope m (m_ops m)) (m_ops m) && acyclicb (m_ops m)
+  && forallb (fun o => Nat.eqb (count_key (o_op o) (m_ops m)) 1) (m_outputs m)
+  && forallb (fun f => forallb (entry_closedb_noscope m (f_ops f)) (f_ops f) && acyclicb (f_ops f)
+                       && Nat.eqb (count_key (f_ret f) (f_ops f)) 1) (m_functions m)
+  && znodup (map f_id (m_functions m)).
